@@ -269,6 +269,13 @@ def V1_tables(ctx):
                     ok_paths += 1
                 else:
                     bad.append(p)
+    # ... and unconditionally so: whenever a successor exists its slot is inspected (the cursor position is no reason to skip —
+    # a rewind may have pulled the cursor back over a parked successor, and nobody else ever clears a commit-boundary barrier)
+    for p in feasible(f.paths()):
+        if p.end != 'return' or track_ds(p):
+            continue
+        if holds_rel(p, len(p.events), lambda op, l, r: op == 'Lt' and is_add1(l, ('arg', 2)) and mentions_field(r, 'num_txs')):
+            bad.append(p)
     ctx.ob('V1', f, 'commit-releases-successor', ok_paths >= 1 and not bad, f'ok paths={ok_paths} bad={len(bad)}', site=f.loc(f.b['lo']),
            what='a transaction parked behind its own commit boundary (dependency = itself) is released only here: onboard(t+1) ⇒ dependency:=None and cursor rewound to t+1')
     # key_tx(): barrier only while t > live cursor read inside DS[t]
